@@ -30,8 +30,12 @@ def cofpos(ev, pc):
 
 
 @spec
-def wsum(ev, L, k):
+def wsum(ev, L, k, kind="wait"):
     from scoda.enumerations.message_type import MessageType
+    if kind == "time":
+        return sum(m.time for m in L[:k] if getattr(m, "time", None) is not None)
+    if kind == "mtime":
+        return sum(m.time for m in L[:k])
     return sum(m.time for m in L[:k] if m.message_type == MessageType.WAIT)
 
 
